@@ -269,7 +269,7 @@ func c15(r *vlib.Run) int {
 // with a periodic interim report (interval 1). No kill: the outfile observed by
 // the watcher during the run and the outfile left behind must be complete.
 func c15Overlap(r *vlib.Run) {
-	rows := r.N(40000, 120000)
+	rows := r.N(40000, 90000) // below the query's "limit 100000"
 	delays := []int{0, 250, 500, 750}
 	if r.Thorough() {
 		delays = []int{0, 100, 200, 300, 400, 500, 600, 700, 800, 900}
